@@ -29,6 +29,11 @@ fn spaces(tier: Tier) -> Vec<Space> {
     s.big_budget = if tier == Tier::Quick { 1 } else { 2 };
     s.deletes = tier != Tier::Quick;
     v.push(Space { name: "R2-big", sys: s, depth: if tier == Tier::Quick { 8 } else { 10 } });
+    // commits of several operations (create+set; delete+create+set)
+    let mut s = SyncSys::new(2);
+    s.updates = vec![("p".into(), Some("a".into()), 1), ("p".into(), Some("b".into()), 2), ("p".into(), None, 2)];
+    s.batches = true;
+    v.push(Space { name: "R2-batches", sys: s, depth: if tier == Tier::Quick { 6 } else { 8 } });
     if tier == Tier::Thorough {
         let mut s = SyncSys::new(4);
         s.updates = vec![("p".into(), Some("a".into()), 1), ("p".into(), Some("b".into()), 2)];
@@ -37,6 +42,10 @@ fn spaces(tier: Tier) -> Vec<Space> {
         s.tasks = vec![1, 2];
         s.updates = small_updates();
         v.push(Space { name: "R2-two-tasks", sys: s, depth: 6 });
+        let mut s = SyncSys::new(3);
+        s.updates = vec![("p".into(), Some("a".into()), 1), ("p".into(), Some("b".into()), 2)];
+        s.batches = true;
+        v.push(Space { name: "R3-batches", sys: s, depth: 6 });
         let mut s = SyncSys::new(3);
         s.updates = vec![("p".into(), Some("a".into()), 1), ("p".into(), Some("b".into()), 2)];
         s.big_budget = 1;
